@@ -97,12 +97,14 @@ Definition bs_skipN (s : bs_state) (n : N) : sres bs_state bytes :=
 Definition bs_new (b : bytes) : bs_state := {| bs_b := b; bs_n := 0 |}.   (* Reset(b) *)
 
 Definition bs_next_depth (s : bs_state) (t : N) (d : nat) : sres bs_state bytes :=
-  sbind (tskip bs_skipN d (S (length (bs_b s))) s t) (fun s1 _ =>
+  (* p.n = 0 (since the repair /repo: a Next that failed part-way no longer leaves its offset behind) *)
+  let s0 := {| bs_b := bs_b s; bs_n := 0 |} in
+  sbind (tskip bs_skipN d (S (length (bs_b s))) s0 t) (fun s1 _ =>
   (* b = p.b[:p.n]; p.b = p.b[p.n:]; p.n = 0 *)
   sbind (sret s1 (do out <- slice_range (bs_b s1) 0 (bs_n s1);
                   do rest <- slice_from (bs_b s1) (bs_n s1); Ok (out, rest))) (fun _ h =>
   ({| bs_b := snd h; bs_n := 0 |}, Ok (fst h)))).
-(* BytesSkipDecoder.Next: on error p.n keeps the bytes consumed so far (no reset) *)
+(* BytesSkipDecoder.Next: on error p.n keeps the bytes consumed so far, until the next Next resets it *)
 Definition bs_next (s : bs_state) (t : N) : sres bs_state bytes := bs_next_depth s t depth0.
 
 (* ================= SkipDecoder (Peek-accumulate over bufiox) ================= *)
